@@ -1,5 +1,5 @@
 ---- MODULE Itp_Quick ----
 (* instance wrapper for C11 (TLC evaluates zero-arity definitions eagerly: one module per instance) *)
 EXTENDS ItpRoundTripExport
-MCMols == MolsQuick(0)
+MCMols == TLCEval(MolsQuick(0))
 ====
